@@ -403,6 +403,32 @@ struct Dumper {
     os << "{\"x\":" << jstr(s) << "}";
   }
 
+  // function pointers inside a constant initialiser, with their byte offsets (vtables)
+  void flatFuncs(const Constant *c, uint64_t off, std::vector<std::pair<uint64_t, std::string>> &out, unsigned depth) {
+    if (depth > 8 || out.size() > 4096) return;
+    const Value *b = c->stripPointerCasts();
+    if (auto *f = dyn_cast<Function>(b)) { out.push_back({off, f->getName().str()}); return; }
+    if (auto *ce = dyn_cast<ConstantExpr>(c)) {
+      if (ce->getOpcode() == Instruction::BitCast || ce->getOpcode() == Instruction::PtrToInt || ce->getOpcode() == Instruction::IntToPtr)
+        flatFuncs(cast<Constant>(ce->getOperand(0)), off, out, depth + 1);
+      return;
+    }
+    Type *t = c->getType();
+    if (auto *st = dyn_cast<StructType>(t)) {
+      if (isa<ConstantAggregateZero>(c)) return;
+      const StructLayout *sl = DL.getStructLayout(st);
+      for (unsigned i = 0; i < st->getNumElements(); ++i)
+        if (Constant *e = c->getAggregateElement(i)) flatFuncs(e, off + sl->getElementOffset(i), out, depth + 1);
+    } else if (auto *at = dyn_cast<ArrayType>(t)) {
+      if (isa<ConstantAggregateZero>(c)) return;
+      uint64_t es = DL.getTypeAllocSize(at->getElementType());
+      uint64_t n = at->getNumElements();
+      if (n > 64) n = 64;
+      for (uint64_t i = 0; i < n; ++i)
+        if (Constant *e = c->getAggregateElement(i)) flatFuncs(e, off + i * es, out, depth + 1);
+    }
+  }
+
   // DWARF composite types ---------------------------------------------------
   std::map<const DIType *, unsigned> tyid;
   std::vector<const DIType *> tyorder;
@@ -554,6 +580,16 @@ int main(int argc, char **argv) {
         << ",\"size\":" << (G.getValueType()->isSized() ? M->getDataLayout().getTypeAllocSize(G.getValueType()).getFixedSize() : 0);
     if (auto *at = dyn_cast<ArrayType>(G.getValueType())) out << ",\"len\":" << at->getNumElements() << ",\"esize\":" << M->getDataLayout().getTypeAllocSize(at->getElementType()).getFixedSize();
     if (G.hasInitializer()) { out << ",\"init\":"; D.dumpConst(G.getInitializer(), 0); }
+    if (G.hasInitializer() && (isa<StructType>(G.getValueType()) || isa<ArrayType>(G.getValueType()))) {
+      std::vector<std::pair<uint64_t, std::string>> fl;
+      D.flatFuncs(G.getInitializer(), 0, fl, 0);
+      if (!fl.empty()) {
+        out << ",\"fptrs\":[";
+        for (size_t i = 0; i < fl.size(); ++i) { if (i) out << ","; out << "[" << fl[i].first << "," << jstr(fl[i].second) << "]"; }
+        out << "]";
+      }
+      if (auto *st = dyn_cast<StructType>(G.getValueType())) if (st->hasName()) out << ",\"sty\":" << jstr(st->getName());
+    }
     out << "}";
   }
   out << "],\n";
